@@ -1038,3 +1038,53 @@ Proof.
   induction s as [|c r IH]; [reflexivity|].
   unfold Utf8.encode in *. cbn [flat_map]. rewrite mk_app, IH, mk_encode1. change (c :: r) with ([c] ++ r). rewrite mk_app. reflexivity.
 Qed.
+
+(* ------------------------------------------------------------------ the same frame statement for the explanation text *)
+Lemma page_frame_generic b c tmpl E : exists R : res frame, forall v,
+  rbind (substitute tmpl (inst v E)) (page_of b c) = rmap (fun q => fill q (plug b v)) R.
+Proof.
+  destruct (substitute_frame tmpl E) as [R0 HR0].
+  destruct R0 as [ps| | |].
+  - destruct (page_of_frame b c ps) as [R HR]. exists R. intros v. rewrite HR0. simpl. apply HR.
+  - exists KeyErr. intros v. rewrite HR0. reflexivity.
+  - exists ValErr. intros v. rewrite HR0. reflexivity.
+  - exists EncErr. intros v. rewrite HR0. reflexivity.
+Qed.
+
+Definition with_expl (i : input) (x : text) : input :=
+  mkInput (i_cls i) (i_detail i) (i_comment i) (Some x) (i_location i) (i_headers i) (i_environ i) (i_tmpl i) (i_offers i).
+
+Definition base_penv_e (b : branch) (c : cls) (i : input) : penv :=
+  [ (s_k_br, [Lit (b_br b)]);
+    (s_k_expl, [Hole]);
+    (s_k_detail, [Lit (esc_apply (b_esc b) (or_empty (i_detail i)))]);
+    (s_k_comment, [Lit (esc_apply (b_esc b) (or_empty (i_comment i)))]);
+    (s_k_html_comment, [Lit (html_comment_of b i)]) ].
+
+Lemma base_args_inst_e b c i x :
+  base_args b c (with_expl i x) = inst (esc_apply (b_esc b) x) (base_penv_e b c i).
+Proof.
+  unfold base_args, base_penv_e, inst. cbn [map fst snd].
+  rewrite !fill_lit, fill_hole. reflexivity.
+Qed.
+
+Lemma no_placeholder_expansion_expl b c i : exists R : res frame, forall x,
+  page_text spec_policy b c (with_expl i x) =
+  rmap (fun q => fill q (plug b (esc_apply (b_esc b) x))) R.
+Proof.
+  assert (HE : exists E : penv, forall x,
+             build_args spec_policy b c (with_expl i x) (is_custom c i) = inst (esc_apply (b_esc b) x) E).
+  { destruct (is_custom c i).
+    - exists (fold_left (phdr_step (b_esc b)) (headers_of c i) (fold_left (penv_step (b_esc b)) (i_environ i) (base_penv_e b c i))).
+      intros x. rewrite build_args_spec, base_args_inst_e, fold_env_inst.
+      change (headers_of c (with_expl i x)) with (headers_of c i).
+      change (i_environ (with_expl i x)) with (i_environ i).
+      rewrite fold_hdr_inst. reflexivity.
+    - exists (base_penv_e b c i). intros x. rewrite build_args_spec. apply base_args_inst_e. }
+  destruct HE as [E HE].
+  destruct (page_frame_generic b c (tmpl_of c i) E) as [R HR]. exists R. intros x.
+  rewrite page_text_unfold.
+  change (is_custom c (with_expl i x)) with (is_custom c i).
+  change (tmpl_of c (with_expl i x)) with (tmpl_of c i).
+  rewrite HE. apply HR.
+Qed.
